@@ -401,3 +401,131 @@ func exitAvoidingEdges(fn *ssa.Function, w map[*ssa.BasicBlock]bool, skip map[[2
 	}
 	return false
 }
+
+// STATE-HOOK (C11): the elements of the user's circuit value outlive a compilation. A gadget function that sets a
+// field of an element it received from its caller (a trust flag such as modReduced) changes what the next
+// compilation of the same circuit value emits, unless the per-compilation initialisation hook (GnarkInitHook,
+// called by the schema walk on every element of the circuit) resets that field unconditionally. Fields that are
+// both set and cleared inside the deferred-check machinery (cleanEvaluations) are covered by STATE-RESET.
+func RunStateHook(p *Prog, r *Report) {
+	const rule = "STATE-HOOK"
+	pkgPath := modPath + "/std/math/emulated"
+	var hook *ssa.Function
+	cleaned := map[string]bool{}
+	for _, fn := range p.Funcs {
+		pk := FuncPkg(fn)
+		if pk == nil || pk.Path() != pkgPath || len(fn.Blocks) == 0 {
+			continue
+		}
+		if o := fn.Origin(); o != nil && o != fn {
+			continue
+		}
+		if fn.Name() == "GnarkInitHook" && namedName(deref(fn.Signature.Recv().Type())) == "Element" {
+			hook = fn
+		}
+		if fn.Name() == "cleanEvaluations" {
+			for _, b := range fn.Blocks {
+				for _, ins := range b.Instrs {
+					if st, ok := ins.(*ssa.Store); ok {
+						if fa, ok := st.Addr.(*ssa.FieldAddr); ok && namedName(deref(fa.X.Type())) == "Element" {
+							cleaned[fieldName(fa.X.Type(), fa.Field)] = true
+						}
+					}
+				}
+			}
+		}
+	}
+	if hook == nil {
+		r.Fail("UNRESOLVED", "-", "-", "emulated.(*Element).GnarkInitHook", "-", "initialisation hook not found")
+		return
+	}
+	// fields reset by the hook on every path
+	hookStores := map[string]map[*ssa.BasicBlock]bool{}
+	for _, b := range hook.Blocks {
+		for _, ins := range b.Instrs {
+			st, ok := ins.(*ssa.Store)
+			if !ok {
+				continue
+			}
+			if fa, ok := st.Addr.(*ssa.FieldAddr); ok && fa.X == hook.Params[0] {
+				if c, ok := st.Val.(*ssa.Const); ok && (c.Value == nil || c.Value.String() == "false" || c.Value.String() == "0") {
+					n := fieldName(fa.X.Type(), fa.Field)
+					if hookStores[n] == nil {
+						hookStores[n] = map[*ssa.BasicBlock]bool{}
+					}
+					hookStores[n][b] = true
+				}
+			}
+		}
+	}
+	type site struct {
+		fn  *ssa.Function
+		pos token.Pos
+	}
+	set := map[string][]site{}
+	for _, fn := range p.Funcs {
+		pk := FuncPkg(fn)
+		if pk == nil || pk.Path() != pkgPath || len(fn.Blocks) == 0 || fn == hook || fn.Name() == "cleanEvaluations" {
+			continue
+		}
+		if o := fn.Origin(); o != nil && o != fn {
+			continue
+		}
+		for _, b := range fn.Blocks {
+			for _, ins := range b.Instrs {
+				st, ok := ins.(*ssa.Store)
+				if !ok {
+					continue
+				}
+				fa, ok := st.Addr.(*ssa.FieldAddr)
+				if !ok || namedName(deref(fa.X.Type())) != "Element" {
+					continue
+				}
+				// the element is one the function received: a parameter (also spilled) or loaded from a parameter's structure
+				base := fa.X
+				if u, ok := base.(*ssa.UnOp); ok && u.Op == token.MUL {
+					if a, ok := u.X.(*ssa.Alloc); ok {
+						if sv := singleStore(a); sv != nil {
+							base = sv
+						}
+					}
+				}
+				if _, isParam := base.(*ssa.Parameter); !isParam {
+					continue
+				}
+				// storing the zero value is a reset, not a set
+				if c, ok := st.Val.(*ssa.Const); ok && (c.Value == nil || c.Value.String() == "false" || c.Value.String() == "0") {
+					continue
+				}
+				n := fieldName(fa.X.Type(), fa.Field)
+				set[n] = append(set[n], site{fn, st.Pos()})
+			}
+		}
+	}
+	var names []string
+	for n := range set {
+		names = append(names, n)
+	}
+	sort.Strings(names)
+	cnt := 0
+	for _, n := range names {
+		if cleaned[n] {
+			continue
+		}
+		cnt++
+		s0 := set[n][0]
+		key := "element-field:" + n
+		w := hookStores[n]
+		switch {
+		case len(w) == 0:
+			r.Fail(rule, pkgPath, FuncName(s0.fn), key, p.Pos(s0.pos), fmt.Sprintf("field %s of an element received from the caller is set here and never reset by GnarkInitHook: the flag survives on the user's circuit value and changes what its next compilation emits", n))
+		case exitAvoiding(hook, w):
+			r.Fail(rule, pkgPath, FuncName(s0.fn), key, p.Pos(s0.pos), fmt.Sprintf("field %s of an element received from the caller is set here, and GnarkInitHook resets it only on some paths: for an element that keeps its limbs the flag survives into the next compilation of the same circuit value", n))
+		default:
+			r.Pass(rule, pkgPath, FuncName(s0.fn), key, p.Pos(s0.pos), fmt.Sprintf("field %s is set on caller-owned elements (%d site(s)) and reset unconditionally by GnarkInitHook", n, len(set[n])), true)
+		}
+	}
+	if cnt < 1 {
+		r.Fail("UNRESOLVED", "-", "-", "element fields set on caller-owned elements", "-", "none found, confirmed 1 (modReduced)")
+	}
+}
